@@ -575,10 +575,15 @@ impl Rasn {
                 _ => TokenStream::new(),
             }
         } else {
-            self.format_range_annotations(
-                matches!(member.ty(), ASN1Type::Integer(_)),
-                &all_constraints,
-            )?
+            let signed = match member.ty() {
+                ASN1Type::Integer(_) => true,
+                // a value range on a type reference constrains an integer type
+                ASN1Type::ElsewhereDeclaredType(_) => {
+                    !per_visible_range_constraints(true, &all_constraints)?.is_size_constraint()
+                }
+                _ => false,
+            };
+            self.format_range_annotations(signed, &all_constraints)?
         };
         let alphabet_annotations = if let ASN1Type::CharacterString(c_string) = member.ty() {
             self.format_alphabet_annotations(c_string.ty, &all_constraints)?
